@@ -1,5 +1,4 @@
-import SciVerif.Drive.Util
+import SciVerif.Drive.C11
 open Lean SciVerif.Drive
 
-/-- C11 model driver: not built yet. -/
-def main : IO Unit := serve (fun _ => throw "C11: no model yet")
+def main : IO Unit := serve SciVerif.C11.Drive.handle
